@@ -237,6 +237,25 @@ def systematic():
                 qs.append(grp(ga, {"t": "union", "gs": [grp(b), grp(a)]}, c3))
                 qs.append(grp(ga, gb, {"t": "group", "g": grp(a)}, c3))
                 qs.append(grp(a, gb, c3))
+    # a BIND in a group of its own whose expression names a variable that is bound outside that group only: not in scope, the new variable stays unbound
+    for a in A_POOL[:3]:
+        for be in (ev("y"), {"e": "+", "a": ev("y"), "b": ec(N(1))}, {"e": "coalesce", "args": [ev("y"), ec(S("none"))]}, {"e": "bound", "v": "y"}):
+            bd = {"t": "bind", "e": be, "v": "k"}
+            qs.append(grp(a, {"t": "group", "g": grp(bd)}))
+            qs.append(grp({"t": "group", "g": grp(bd)}, a))
+            qs.append(grp(a, {"t": "optional", "g": grp(bd)}))
+            qs.append(grp(a, {"t": "group", "g": grp(bgp((V("x"), I("q"), V("z"))), bd)}))
+            qs.append(grp(a, {"t": "subselect", "q": {"form": "select", "proj": ["k"], "where": grp(bd)}}))
+            qs.append(grp(a, {"t": "union", "gs": [grp(bd), grp(bgp((V("x"), I("q"), V("k"))))]}))
+    # MINUS whose left operand has solutions with different domains (UNION branches over different variables, VALUES with UNDEF): whether a
+    # solution shares a variable with the right-hand side is decided solution by solution, in either order of the branches / rows
+    for b in (bgp((V("y"), I("q"), V("w"))), bgp((V("x"), I("q"), V("w"))), bgp((V("z"), I("p"), V("y")))):
+        u1, u2 = grp(bgp((V("x"), I("p"), V("k")))), grp(bgp((V("u"), I("p"), V("y"))))
+        u3 = grp(bgp((V("x"), I("q"), V("x2"))))
+        for gs in ([u1, u2], [u2, u1], [u3, u2, u1], [u1, u3]):
+            qs.append(grp({"t": "union", "gs": gs}, {"t": "minus", "g": grp(b)}))
+        for rows in ([[I("n1"), {"k": "undef"}], [{"k": "undef"}, N(1)], [I("n2"), N(2)]], [[{"k": "undef"}, N(1)], [I("n1"), {"k": "undef"}]], [[{"k": "undef"}, {"k": "undef"}], [I("n1"), N(1)], [I("n2"), {"k": "undef"}]]):
+            qs.append(grp({"t": "values", "vars": ["x", "y"], "rows": rows}, {"t": "minus", "g": grp(b)}))
     # EXISTS / NOT EXISTS / MINUS / OPTIONAL evaluated inside GRAPH ?g: the active graph is part of what the inner pattern sees
     for a in A_POOL[:4]:
         for b in B_POOL[:3]:
